@@ -1,1 +1,3 @@
 import Properties.C02
+import Properties.C10
+import Properties.C17
